@@ -346,10 +346,15 @@ where
     RangeInclusive<T>: DoubleEndedIterator<Item = T> + Clone,
     RangeFrom<T>: Iterator<Item = T>,
 {
-    let vals: Vec<T> = match (T::all(), cfg.miri()) {
+    let mut vals: Vec<T> = match (T::all(), cfg.miri()) {
         (Some(v), false) => v,
         _ => T::hood(),
     };
+    if cfg.miri() && vals.len() > 7 {
+        // the interpreter costs ~10 ms per step: both ends and the middle of the boundary neighbourhood
+        let n = vals.len();
+        vals = [0, 1, n / 2 - 1, n / 2, n - 3, n - 2, n - 1].iter().map(|&k| vals[k]).collect();
+    }
     let n = vals.len();
     par_for(cfg, n, |i, r| {
         let a = vals[i];
@@ -393,19 +398,23 @@ fn for_range_macro(cfg: &Cfg) -> Report {
 pub fn run(cfg: &Cfg) -> (&'static str, Report, String, String) {
     let mut rep = Report::new();
     rep.merge(run_type::<u8>(cfg));
-    rep.merge(run_type::<i8>(cfg));
-    rep.merge(run_type::<u16>(cfg));
-    rep.merge(run_type::<i16>(cfg));
-    rep.merge(run_type::<u32>(cfg));
+    if !cfg.miri() {
+        rep.merge(run_type::<i8>(cfg));
+        rep.merge(run_type::<u16>(cfg));
+        rep.merge(run_type::<i16>(cfg));
+        rep.merge(run_type::<u32>(cfg));
+        rep.merge(run_type::<u64>(cfg));
+        rep.merge(run_type::<i64>(cfg));
+        rep.merge(run_type::<usize>(cfg));
+        rep.merge(run_type::<isize>(cfg));
+        rep.merge(run_type::<i128>(cfg));
+    }
     rep.merge(run_type::<i32>(cfg));
-    rep.merge(run_type::<u64>(cfg));
-    rep.merge(run_type::<i64>(cfg));
-    rep.merge(run_type::<usize>(cfg));
-    rep.merge(run_type::<isize>(cfg));
     rep.merge(run_type::<u128>(cfg));
-    rep.merge(run_type::<i128>(cfg));
     rep.merge(run_type::<char>(cfg));
-    rep.merge(for_range_macro(cfg));
+    if !cfg.miri() {
+        rep.merge(for_range_macro(cfg));
+    }
     // char ranges across the surrogate gap, iterated completely
     if cfg.mine(1 % cfg.nshards) {
         for (a, b) in [('\u{D7F0}', '\u{E010}'), ('\u{D7FF}', '\u{E000}'), ('\u{D7FE}', '\u{E001}'), ('\u{10FF00}', '\u{10FFFF}'), ('\0', '\u{200}')] {
